@@ -24,7 +24,7 @@ func init() {
 		Rule: "cases: (numbers) the product sign x 91 integer-part shapes (lengths 1..22, int64/uint64 boundary neighbours) x 86 fraction shapes x 22 exponent forms, each in 2 (quick) / 6 (thorough) syntactic contexts; " +
 			"(strings) all 65536 \\uXXXX escapes in both hex cases alone and embedded, surrogate pairs (corners, lone halves, random), every simple escape, escapes next to buffer-growth lengths; " +
 			"(documents) generated valid texts with duplicate keys, escapes, raw high bytes and boundary numbers. Each valid text is decoded by 14 routes (oj/gen/sen parsers from []byte and from readers incl. 1-byte reads, tokenizers rebuilt by the harness collector and by alt.Builder) " +
-			"and compared with the reference decoder. non-trivial: every case (all are valid JSON with at least one number, escape or member); distinct: lattice points and escapes are distinct by construction, documents by digest",
+			"and compared with the reference decoder; texts with a number beyond int64/float64 are decoded a second time with the package default ojg.DefaultNumConvMethod set to NumConvString (such a number may then be the string of its digits, nothing else may change or get lost). non-trivial: every case (all are valid JSON with at least one number, escape or member); distinct: lattice points and escapes are distinct by construction, documents by digest",
 		Assumptions: []string{
 			"a float64 must equal strconv.ParseFloat(literal) (correctly rounded); literals whose nearest float64 is infinite are don't-care between Inf and a big-number form",
 			"-0 may come back as int64(0) (the value is zero)",
